@@ -24,7 +24,7 @@ THEOREMS = {
     "C18": ["Backtrace.C18_ring_refines", "Backtrace.C18_flush_emits_lastN", "Backtrace.C18_replays_form_a_subsequence", "Backtrace.C18_cycle_after_flush",
             "Backtrace.C18_cycle_after_resize", "Backtrace.C18_lastN_is_most_recent", "Backtrace.C18_trigger_iff",
             "Backtrace.C18_stored_iff", "Backtrace.C18_written_iff", "Backtrace.C18_backend_refines",
-            "Backtrace.C18_backtrace_statement_not_written", "Backtrace.C18_replay_follows_trigger",
+            "Backtrace.C18_backtrace_statement_not_written", "Backtrace.C18_replay_follows_trigger", "Backtrace.C18_other_loggers_untouched",
             "Backtrace.C18_pinned_ring_partial", "Backtrace.C18_F1_index_not_reset", "Backtrace.C18_F1_index_out_of_range", "Backtrace.C18_F2_capacity_zero_ub",
             "Backtrace.C18_neg_walk_from_zero", "Backtrace.C18_neg_no_clear", "Backtrace.C18_neg_wrap_late",
             "Backtrace.C18_neg_wrap_early", "Backtrace.C18_neg_strict_comparison",
@@ -144,6 +144,7 @@ def run(prop, tier):
     ck.assumptions = [
         "the backend processes the events of all threads as one sequence (BackendWorker is single-threaded); which sequence is the subject of C05/C03, not of this check",
         "an event id is carried in TransitEvent::timestamp / the formatted message; the stored thread id and name strings are checked for integrity by the harness, not modelled",
+        "set_capacity's reserve(capacity) does not throw (it allocates capacity * sizeof(StoredTransitEvent) eagerly; a capacity too large to allocate leaves the new capacity in force and reports through the error notifier — not modelled)",
         "capacities and indices are uint32_t in the code and Nat in the model: index < capacity < 2^32 always, so no wrap-around of the integers themselves (the only subtraction that could, `_capacity - 1` with capacity 0, is behind the extracted guard)",
     ]
     ps = ck.proof_side(MODULES[prop], THEOREMS[prop], OBLIG)
